@@ -32,13 +32,23 @@ def run(ctx):
     if not ok:
         n *= 3
     vcfgs = [c for c in vcommon.cfgs(ctx.tier) if c.cat != 'tc']
-    ctx.coverage['rule'] = ('random histories (vectors: every public operation; sets: FlatSet and SmallSet incl. extract/merge/node transfer) with '
+    ctx.coverage['rule'] = ('random histories (vectors: every public operation, every third history with byte-wise relocations of the containers that claim the trait; sets: FlatSet and SmallSet incl. extract/merge/node transfer) with '
                             'element types that carry an identity and (non relocatable flavour) their own address: double destroy, use of a dead '
                             'or moved-from object, self move-assignment, byte-wise move of a self-referential object, visible moved-from '
                             'element, live objects != visible elements, anything alive at drain are reported by the harness ledgers; the '
                             'per-slot lifetime discipline of the Lean model must agree (a model FAULT is a difference); non-trivial = some '
                             'operation shifted elements and some container reallocated')
-    VC.run(ctx, vcfgs, vcommon.history_gen(40), n, preds=(VC.fault_pred, live_pred), nontrivial=vcommon.nontrivial_history,
+    base_gen = vcommon.history_gen(40)
+    def vgen(rng, cfg, k):
+        # every third history also relocates the containers themselves byte-wise (what an outer relocating container does with an
+        # element type that claims to be trivially relocatable): a container that claims the trait although its elements are not
+        # relocatable gets its inline elements byte-copied
+        lines = base_gen(rng, cfg, k)
+        if k % 3 == 2:
+            from props import C14
+            lines = C14.with_reloc(lines, rng, cfg.pool, p=0.2)
+        return lines
+    VC.run(ctx, vcfgs, vgen, n, preds=(VC.fault_pred, live_pred), nontrivial=vcommon.nontrivial_history,
            label='C02 vector history')
     scfgs = [c for c in scommon.flat_cfgs(ctx.tier) + scommon.small_cfgs(ctx.tier) if c.cat == 'ntr']
     SC.run(ctx, scfgs, lambda rng, cfg, k: S.gen_history(rng, cfg, 40), n // 2, preds=(SC.oracle_pred, set_live_pred), use_cmps=False,
